@@ -12,7 +12,7 @@
 From Coq Require Import String.
 From Coq Require Import List Ascii ZArith Bool.
 From CGV Require Import Base.PyBase Base.PyVal Base.NxGraph Gen.HydroGen Hydro.Hydrogens Hydro.Squash
-     Hydro.SquashDefs Hydro.SquashProofs Hydro.SquashTotal Hydro.ShareProofs Hydro.QuotientDefs Hydro.QuotientProofs Hydro.BangBonds.
+     Hydro.SquashDefs Hydro.SquashProofs Hydro.SquashTotal Hydro.ShareProofs Hydro.QuotientDefs Hydro.QuotientProofs Hydro.BangBonds Hydro.BangGraph.
 From CGV Require Hydro.HydroCheck Hydro.SquashCheck.
 From CGV Require Resolve.GraphOps Resolve.CopyProofs Resolve.Bonding.
 Import ListNotations.
@@ -227,6 +227,31 @@ Theorem C10_bang_bonds_like_dollar : forall L arom edges s, Ps (bang_free L) s -
   = res_map (ren_out (bangify L)) (Bonding.edges_from_bonding true arom edges s []).
 Proof. exact bang_bonds_like_dollar. Qed.
 
+(** the same one level up, on the graphs (Resolve/GraphOps.v): instantiating the fragments and creating the bonds
+    is parametric in the descriptor texts.  [gmap r] rewrites every `bonding` attribute value (node lists and
+    edge pairs) by [r]; [fdmap]/[fgmap] do so in a fragment dictionary / the fragment graphs. *)
+Theorem C10_resolve_disconnected_parametric : forall r fd meta,
+  GraphOps.resolve_disconnected (fdmap r fd) meta = res_map (smap r) (GraphOps.resolve_disconnected fd meta).
+Proof. exact resolve_disconnected_gmap. Qed.
+Theorem C10_bonding_step_parametric : forall (r : pystr -> pystr) legacy (P : pystr -> Prop),
+  (forall d, P d -> d <> []) -> (forall d, P d -> r d <> []) ->
+  (forall a b, P a -> P b -> BondingDefs.compat_str legacy (r a) (r b) = BondingDefs.compat_str legacy a b) ->
+  (forall a b, P a -> P b -> str_eqb (r a) (r b) = str_eqb a b) ->
+  (forall a, P a -> py_last (r a) = py_last a) ->
+  forall aa meta mol fgs, (forall s0, GraphOps.tables_of fgs = Ok s0 -> Ps P s0) ->
+  GraphOps.bonding_step legacy aa meta (gmap r mol) (fgmap r fgs)
+  = res_map (smap r) (GraphOps.bonding_step legacy aa meta mol fgs).
+Proof. exact bonding_step_gmap. Qed.
+(** instance: the fragments written with `!lab` (lab in L) resolve to the graph of the fragments written with
+    `$lab`, up to those texts -- the edges squash_atoms contracts are the cut bonds of the `$` description *)
+Theorem C10_resolve_bang_like_dollar : forall L aa fd meta mol fgs,
+  GraphOps.resolve_disconnected fd meta = Ok (mol, fgs) ->
+  (forall s0, GraphOps.tables_of fgs = Ok s0 -> Ps (bang_free L) s0) ->
+  (st <- GraphOps.resolve_disconnected (fdmap (bangify L) fd) meta ;;
+   GraphOps.bonding_step true aa meta (fst st) (snd st))
+  = res_map (smap (bangify L)) (GraphOps.bonding_step true aa meta mol fgs).
+Proof. exact resolve_bang_like_dollar. Qed.
+
 (** one level up (bond creation, Resolve/Bonding.v with the generated [compatible]): a single descriptor pair
     between two coarse nodes makes exactly one bond — u-v for the `$` pair, v'-v for the `!` pair *)
 Theorem C10_single_pair_bond : forall legacy arom A B x y c t o, A <> B -> (c = "$"%char \/ c = "!"%char) ->
@@ -286,3 +311,6 @@ Print Assumptions C10_share_vs_cut_many_decidable.
 Print Assumptions C10_share_vs_cut_pairs.
 Print Assumptions C10_bond_creation_renaming.
 Print Assumptions C10_bang_bonds_like_dollar.
+Print Assumptions C10_resolve_disconnected_parametric.
+Print Assumptions C10_bonding_step_parametric.
+Print Assumptions C10_resolve_bang_like_dollar.
